@@ -311,6 +311,32 @@ def onxSeqShadow {σ ε : Type} : List (Bool × (σ → σ × Option ε)) → σ
     | (s', some e) => if shadowed then onxSeqShadow fs s' else (s', some e)
     | (s', none) => onxSeqShadow fs s'
 
+/-! ## operations built on other operations (SendCommands, SendConfigs, SendConfig, …FromFile) -/
+
+/-- a composite operation: run the element operations in order on the connection state, collecting
+    their results; the first element that fails ends the composite with that error and NO result -/
+def composed {σ ε α : Type} : List (σ → σ × (ε ⊕ α)) → σ → σ × (ε ⊕ List α)
+  | [], s => (s, .inr [])
+  | f :: fs, s =>
+    match f s with
+    | (s', .inl e) => (s', .inl e)
+    | (s', .inr a) =>
+      match composed fs s' with
+      | (s'', .inl e) => (s'', .inl e)
+      | (s'', .inr as) => (s'', .inr (a :: as))
+
+/-- the variant that hands back what it has gathered when an element fails and lets a wrapper turn
+    that into a result (`return m, err` + `if err != nil && len(m.Responses) == 0`) -/
+def composedPartial {σ ε α : Type} : List (σ → σ × (ε ⊕ α)) → σ → σ × (ε ⊕ List α)
+  | [], s => (s, .inr [])
+  | f :: fs, s =>
+    match f s with
+    | (s', .inl _) => (s', .inr [])          -- the error is dropped, the gathered part is the result
+    | (s', .inr a) =>
+      match composedPartial fs s' with
+      | (s'', .inl e) => (s'', .inl e)
+      | (s'', .inr as) => (s'', .inr (a :: as))
+
 /-! ## the standard operations as programs -/
 
 /-- `Channel.SendInputB` -/
